@@ -107,53 +107,67 @@ def depth_at_table_sites(ctx, F, fn, rule):
     return n
 
 
+SINK_METHODS = ("insert", "or_insert", "or_insert_with", "insert_entry")
+KEY_METHODS = ("entry", "insert", "get_mut")
+
+
+def table_sinks(body):
+    """Every place a TableEntry value is stored: map/entry insertion methods and assignments through a `&mut TableEntry`
+    (and_modify closures, OccupiedEntry::get_mut, HashMap::get_mut ...), whatever the surrounding idiom."""
+    out = []
+    for n, _ in hir.walk(body):
+        if n.get("k") == "MethodCall" and n["name"] in SINK_METHODS and ("hash_map" in (hir.callee_of(n) or "") or "HashMap" in (hir.callee_of(n) or "")):
+            out.append((n, n["args"][-1]))
+        elif n.get("k") == "Assign" and n["l"].get("ty") == "search::TableEntry" and n["l"].get("k") == "Unary" and n["l"].get("op") == "Deref":
+            out.append((n, n["r"]))
+    return out
+
+
 def p2(ctx, F):
     total = 0
     for path in (SCORE, ENTRY):
         fn = F.fn(path)
         pv = Prov(fn, F)
         body = fn["hir"]["body"]
-        inserts = [n for n, _ in hir.walk(body) if n.get("k") == "MethodCall" and n["name"] in ("or_insert", "insert", "or_insert_with")
-                   and "hash_map" in (hir.callee_of(n) or "") or
-                   (n.get("k") == "MethodCall" and n["name"] == "insert" and "HashMap" in (hir.callee_of(n) or ""))]
-        for ins in inserts:
+        symt = hir.Sym(hir.Env(fn["hir"], F), F, through=True)
+        short = path.split("::")[-1]
+        # the entry computed by this activation: the TableEntry literal(s) of the function
+        lits = [n for n, _ in hir.walk(body) if n.get("k") == "Struct" and (n["to"].get("path") or "").endswith("search::TableEntry")]
+        cls = ("other", "no TableEntry literal")
+        for n in lits:
+            for f in n["fields"]:
+                if f["name"] == "pv":
+                    cls = pv.classify(f["e"])
+        ok = len(lits) == 1 and allowed(cls) and "cached" not in str(cls[0]) and all(pv.buffers[b]["flag"] is True and pv.buffers[b]["recv"] == "game"
+                                                                                   for b in pv.buffers)
+        ctx.check("C06.P2", "cached-pv-source:%s" % short, ok, fn=path, file=fn["file"], line=hir.line(lits[0]) if lits else fn["span"][0],
+                  what="a move that is not None / an element of the checked list of THIS position is stored in the table: a later "
+                       "search returns it for this hash without validation",
+                  expected="one entry literal; pv = None or element of the buffer filled by game.get_moves(.., true) in the same activation",
+                  found={"class": cls[0], "detail": str(cls[1])[:200], "literals": len(lits)})
+        lit_val = symt(lits[0]) if len(lits) == 1 else None
+        sinks = table_sinks(body)
+        for i, (node, value) in enumerate(sinks):
             total += 1
-            val = pv.sym(ins["args"][-1])
-            # the entry literal
-            ent = val
-            pvf = None
-            if ent[0] == "struct" and ent[1] == "search::TableEntry":
-                pvf = dict(ent[2]).get("pv")
-            # find the defining struct node to classify its pv field expression
-            cls = ("other", hir.fmt(val, 120))
-            for n, _ in hir.walk(body):
-                if n.get("k") == "Struct" and (n["to"].get("path") or "").endswith("search::TableEntry"):
-                    for f in n["fields"]:
-                        if f["name"] == "pv":
-                            cls = pv.classify(f["e"])
-            ok = allowed(cls) and "cached" not in str(cls[0]) and all(pv.buffers[b]["flag"] is True and pv.buffers[b]["recv"] == "game"
-                                                                     for b in pv.buffers)
-            ctx.check("C06.P2", "cached-pv-source:%s" % path.split("::")[-1], ok, fn=path, file=fn["file"], line=hir.line(ins),
-                      what="a move that is not None / an element of the checked list of THIS position is stored in the table: a later "
-                           "search returns it for this hash without validation",
-                      expected="None or element of the buffer filled by game.get_moves(.., true) in the same activation",
-                      found={"class": cls[0], "detail": str(cls[1])[:200]})
-            # key
-            chain = pv.sym(ins["recv"])
-            key_ok = hir.contains(chain, ("call", "std::collections::HashMap::<K, V, S, A>::entry",
-                                          (("var", "table"), ("call", "chess::Game::hash", (("var", "game"),)))))
-            ctx.check("C06.P2", "cached-under-the-position's-own-hash:%s" % path.split("::")[-1], key_ok, fn=path, file=fn["file"],
-                      line=hir.line(ins), what="the table entry must be filed under game.hash() of the position it was computed for",
-                      found=hir.fmt(chain, 160))
-            # and_modify only replaces the entry by the new one
-            mods = [c for c, _ in hir.walk(ins["recv"]) if c.get("k") == "MethodCall" and c["name"] == "and_modify"]
-            for m in mods:
-                clo = hir.strip(m["args"][0])
-                assigns = [a for a, _ in hir.walk(clo["body"]) if a.get("k") == "Assign"] if clo.get("k") == "Closure" else []
-                okm = bool(assigns) and all(pv.sym(a["r"]) == val for a in assigns)
-                ctx.check("C06.P2", "and_modify-replaces-by-the-new-entry:%s" % path.split("::")[-1], okm, fn=path, file=fn["file"],
-                          line=hir.line(m), what="an existing entry may only be replaced by the entry just computed", found=len(assigns))
-        n = depth_at_table_sites(ctx, F, fn, "C06.P2") if path == SCORE else 0
+            v = symt(value)
+            if v[0] == "closure":
+                v = v[2]
+            ctx.check("C06.P2", "only-the-computed-entry-is-stored:%s#%d" % (short, i), lit_val is not None and v == lit_val, fn=path, file=fn["file"],
+                      line=hir.line(node), what="the table may only receive the entry this activation computed (inserted, or replacing an older one)",
+                      expected="the function's TableEntry literal", found=hir.fmt(v, 120))
+        keys = []
+        for n, _ in hir.walk(body):
+            if n.get("k") == "MethodCall" and n["name"] in KEY_METHODS and "HashMap" in (hir.callee_of(n) or "") and n["args"]:
+                if n["name"] == "insert" and len(n["args"]) < 2:
+                    continue
+                keys.append((n, symt(n["args"][0])))
+        want = ("call", "chess::Game::hash", (("var", "game"),))
+        bad = [(hir.line(n), hir.fmt(k, 80)) for n, k in keys if k != want]
+        ctx.check("C06.P2", "cached-under-the-position's-own-hash:%s" % short, bool(keys) and not bad, fn=path, file=fn["file"],
+                  line=bad[0][0] if bad else fn["span"][0], what="the table entry must be filed under game.hash() of the position it was computed for",
+                  expected="table.entry(game.hash()) / insert(game.hash(), ..)", found={"keys": len(keys), "other keys": bad})
+        if path == SCORE:
+            depth_at_table_sites(ctx, F, fn, "C06.P2")
     ctx.floor("C06.P2", "table insertion sites", total, 2)
 
 
@@ -236,8 +250,8 @@ def p5(ctx, F):
     found = {}
     if ok:
         arg = some[0][2][0][1]
-        g = [x for x in some[0][3] if x[0] == "if"]
-        gn = [x for x in none[0][3] if x[0] == "if"]
+        g = [x for x in some[0][3] if x[0] == "if"][-1:]       # the innermost condition decides between the two prints
+        gn = [x for x in none[0][3] if x[0] == "if"][-1:]
         # if let Some(best_move) = best_move  where best_move = get_best_move_until_stop(..)
         ok = arg[0] == "call" and arg[1] == "chess::move_struct::Move::uci_notation" and len(g) == 1 and g[0][1][0] == "let" and \
             g[0][1][1] == ("variant", "std::prelude::v1::Some") and g[0][2] is True and len(gn) == 1 and gn[0][2] is False and gn[0][1] == g[0][1]
